@@ -195,6 +195,10 @@ def _c12_raw_fstring(v):
     import re
     lt = d.get('err_span_text') or d.get('line_text') or ''
     # an f-string (raw or not) whose text contains a backslash directly before a brace (or \\N{ in a raw one)
+    fl = d.get('fstring_backslash_brace_first_line')
+    if fl is not None and d.get('line') is not None and d['line'] >= fl and \
+            (v['kind'] == 'a_error_node' or 'strings' in (d.get('ancestors') or []) or 'fstring' in (d.get('ancestors') or [])):
+        return True      # the text after that f-string is read differently (quotes pair up differently), wherever the issue lands
     if v['kind'] != 'a_error_node':
         # the mis-tokenized f-string can also surface as an issue on its own line (e.g. 'cannot mix bytes and nonbytes literals')
         lt = d.get('line_text') or ''
@@ -297,7 +301,8 @@ def _c12_class_genexp(v):
     """F-C12-13: grammar 3.6: an unparenthesised generator expression as sole class argument (legal until 3.6)"""
     d, msg, mech, ver = _c12(v)
     anc = d.get('ancestors') or []
-    return ver <= (3, 6) and msg == 'invalid syntax' and len(anc) > 1 and anc[1] == 'classdef' and d.get('leaf_value') == '('
+    import re
+    return ver <= (3, 6) and msg == 'invalid syntax' and 'classdef' in anc[:3] and bool(re.match(r'\s*class\s+\w+\s*\(.*\bfor\b.*\bin\b', d.get('line_text') or ''))
 
 
 @classifier('c12_await_as_name_36')
@@ -355,8 +360,14 @@ def _c12_await_ann(v):
     """F-C12-19: `await` / `yield from` inside the annotation of an annotated assignment in a function body: CPython does not
     compile such annotations, so it never checks their placement"""
     d, msg, mech, ver = _c12(v)
-    return msg in ("'await' outside async function", "'yield from' inside async function") and 'annassign' in (d.get('ancestors') or []) \
-        and mech.get('innermost_scope') == 'funcdef'
+    if mech.get('innermost_scope') != 'funcdef':
+        return False
+    if msg in ("'await' outside async function", "'yield from' inside async function") and 'annassign' in (d.get('ancestors') or []):
+        return True
+    # the same never-compiled annotation also makes CPython's symbol table treat the function as a coroutine, so every other await
+    # of that function (also inside a list/set/dict comprehension) passes
+    return msg in ("'await' outside async function", 'asynchronous comprehension outside of an asynchronous function') \
+        and mech.get('scope_has_await_in_local_annotation') is True
 
 
 @classifier('c14_fstring_backslash_brace')
@@ -390,4 +401,10 @@ def _c12_yf_comp(v):
     """F-C12-22: grammar <= 3.7: `yield from` inside a comprehension (its own, synchronous scope for CPython <= 3.7) in the
     body of an async function"""
     d, msg, mech, ver = _c12(v)
-    return ver <= (3, 7) and msg == "'yield from' inside async function" and mech.get('in_comprehension') is True
+    if ver > (3, 7):
+        return False
+    if msg == "'yield from' inside async function" and mech.get('in_comprehension') is True:
+        return True
+    # ... and a yield there does not make the enclosing async function a generator
+    return msg == "'return' with value in async generator" and mech.get('scope_yields', 0) > 0 \
+        and mech.get('scope_yields') == mech.get('scope_yields_in_comprehensions')
